@@ -358,34 +358,53 @@ static void synthesisCase(vh::Rng& rng) {
     }
   }
   // in-schema equation of like with like (terms of equal typification, base sets): mostly admissible; all three text
-  // modes; sometimes two keys with one value; tied to the Lean model of RSEquationProcessor::Execute
+  // modes; sometimes two keys with one value; tied to the Lean model of RSEquationProcessor::Execute.
+  // Up to three rounds on the SAME schema object (the processor is a long-lived member of the operations facet: a later
+  // call must not see anything of an earlier one - seeded change C12-3), sometimes re-inserting an equated-away uid.
   {
     RSForm c = a;
-    std::vector<uint32_t> uc;
-    for (const auto u : c.List()) uc.push_back(u);
-    ops::EquationOptions eq;
-    const int want = rng.range(1, 3);
-    for (int tries = 0; tries < 12 && static_cast<int>(std::size(eq)) < want; ++tries) {
-      const auto k = rng.pick(uc), v = rng.pick(uc);
-      if (k == v || eq.ContainsKey(k) || eq.ContainsKey(v) || eq.ContainsValue(k)) continue;
-      if (c.GetRS(k).type != c.GetRS(v).type || typeStr(c.GetParse(k)) != typeStr(c.GetParse(v)) || typeStr(c.GetParse(k)) == "-") continue;
-      eq.Insert(k, v, ops::Equation{ static_cast<ops::Equation::Mode>(rng.range(1, 3)), "new @{" + c.GetRS(v).alias + "|nomn,sing} term" });
-    }
-    if (!std::empty(eq)) {
+    const int rounds = rng.range(1, 3);
+    std::vector<uint32_t> removed;
+    for (int round = 0; round < rounds; ++round) {
+      if (!removed.empty() && rng.chance(1, 2)) {   // bring an erased identifier back as a fresh term
+        const auto uid = removed.back(); removed.pop_back();
+        std::vector<uint32_t> terms;
+        for (const auto u : c.List()) if (c.GetRS(u).type == semantic::CstType::term && typeStr(c.GetParse(u)) != "-") terms.push_back(u);
+        if (!terms.empty() && !c.Contains(uid)) {
+          const auto src = rng.pick(terms);
+          semantic::ConceptRecord rec;
+          rec.uid = uid; rec.type = semantic::CstType::term; rec.rs = c.GetRS(src).definition;
+          c.InsertCopy(rec);
+        }
+      }
+      std::vector<uint32_t> uc;
+      for (const auto u : c.List()) uc.push_back(u);
+      ops::EquationOptions eq;
+      const int want = rng.range(1, 3);
+      for (int tries = 0; tries < 12 && static_cast<int>(std::size(eq)) < want; ++tries) {
+        const auto k = rng.pick(uc), v = rng.pick(uc);
+        if (k == v || eq.ContainsKey(k) || eq.ContainsKey(v) || eq.ContainsValue(k)) continue;
+        if (c.GetRS(k).type != c.GetRS(v).type || typeStr(c.GetParse(k)) != typeStr(c.GetParse(v)) || typeStr(c.GetParse(k)) == "-") continue;
+        eq.Insert(k, v, ops::Equation{ static_cast<ops::Equation::Mode>(rng.range(1, 3)), "new @{" + c.GetRS(v).alias + "|nomn,sing} term" });
+      }
+      if (std::empty(eq)) break;
       const auto beforeK = dumpFormK(c);
+      std::set<uint32_t> beforeUids;
+      for (const auto u : c.Core()) beforeUids.insert(u);
       const auto table = tableWire(eq);
       const auto tr = c.Ops().Equate(eq);
       emit("c12 equateM " + nosp(beforeK) + " " + table + " " + (tr.has_value() ? "acc" : "ref"),
            (tr.has_value() ? trWire(*tr) : std::string("refused")) + " " + nosp(dumpFormK(c)));
-      if (tr.has_value()) {
-        std::string bad; std::set<std::string> seen;
-        for (const auto uid : c.Core()) if (!seen.insert(c.GetRS(uid).alias).second) bad = "duplicate alias";
-        for (const auto& [k, v] : eq) if (c.Contains(k)) bad = "equated key still present";
-        for (const auto& [k, v] : eq) if (!tr->ContainsKey(k) || !c.Contains((*tr)(k))) bad = "equated key not represented";
-        for (const auto& [k, v] : eq) if (bad.empty() && (*tr)(k) != (tr->ContainsKey(v) ? (*tr)(v) : v)) bad = "equated pair has two survivors";
-        for (const auto& [k, v] : *tr) if (!c.Contains(v)) bad = "translation points to a removed constituent";
-        chk("equate-like-consistent", bad);
-      }
+      if (!tr.has_value()) break;
+      std::string bad; std::set<std::string> seen;
+      for (const auto uid : c.Core()) if (!seen.insert(c.GetRS(uid).alias).second) bad = "duplicate alias";
+      for (const auto& [k, v] : eq) if (c.Contains(k)) bad = "equated key still present";
+      for (const auto& [k, v] : eq) if (!tr->ContainsKey(k) || !c.Contains((*tr)(k))) bad = "equated key not represented";
+      for (const auto& [k, v] : eq) if (bad.empty() && (*tr)(k) != (tr->ContainsKey(v) ? (*tr)(v) : v)) bad = "equated pair has two survivors";
+      for (const auto& [k, v] : *tr) if (!c.Contains(v)) bad = "translation points to a removed constituent";
+      for (const auto& [k, v] : *tr) if (!beforeUids.count(k)) bad = "translation maps " + std::to_string(k) + " which is no constituent of the operand";
+      chk(round == 0 ? "equate-like-consistent" : "equate-like-consistent-again", bad);
+      for (const auto& [k, v] : eq) removed.push_back(k);
     }
   }
   // merge: every constituent of the second schema is represented, aliases unique
